@@ -371,8 +371,19 @@ func (api *API) decodeArray(ctx context.Context, b []byte, value reflect.Value, 
 		return deseri.Done()
 	}
 
-	// if it is an array of objects, handle the array like a slice
-	return api.decodeSlice(ctx, b, sliceValue, sliceValueType, ts, opts)
+	// if it is an array of objects, decode the elements like a slice (into an addressable, empty one)
+	// and copy them into the array afterwards
+	elemsValue := reflect.New(sliceValueType).Elem()
+	bytesRead, err := api.decodeSlice(ctx, b, elemsValue, sliceValueType, ts, opts)
+	if err != nil {
+		return bytesRead, err
+	}
+	if elemsValue.Len() != value.Len() {
+		return 0, ierrors.Wrapf(serializer.ErrDeserializationLengthInvalid, "can't deserialize array of length %d: %d elements were denoted", value.Len(), elemsValue.Len())
+	}
+	fillArrayFromSlice(value, elemsValue)
+
+	return bytesRead, nil
 }
 
 func (api *API) decodeSlice(ctx context.Context, b []byte, value reflect.Value,
